@@ -192,9 +192,9 @@ def summarize(sess, evs, idx):
     return key, what
 
 
-def run_and_validate(run, sessions, label, keys=False, timeouts_reproduce=False):
+def run_and_validate(run, sessions, label, keys=False, timeouts_reproduce=False, race=False):
     """Executes sessions on the real code, validates the traces, reports rejections."""
-    binary = run.go_build("execdrv")
+    binary = run.go_build("execdrv", race=race)
     sp = os.path.join(run.scratch, "sessions-%s.ndjson" % label)
     tp = os.path.join(run.scratch, "traces-%s.ndjson" % label)
     write_ndjson(sp, sessions)
